@@ -158,7 +158,7 @@ class Excel:
                 rows_data = []
                 for index, cell in enumerate(row):
                     if cell.value and (suspicious_constructions := cls._get_suspicious_constructions(cell.value)):
-                        suspicious_cells[f"'{worksheet.title}'{cell.column_letter}{index+1}"] = suspicious_constructions
+                        suspicious_cells[f"'{worksheet.title}'{cell.coordinate}"] = suspicious_constructions
 
                     # обрабатываем ArrayFormula, считываем из него значение формулы
                     if isinstance(cell.value, ArrayFormula):
